@@ -19,7 +19,7 @@ def one(name):
     tmp = tempfile.mkdtemp(prefix="seed_", dir=base)
     try:
         shutil.copytree(os.path.join(REPO, "fortls"), os.path.join(tmp, "fortls"), ignore=shutil.ignore_patterns("__pycache__"))
-        r = subprocess.run(["patch", "-p1", "-s", "-d", tmp, "-i", os.path.join(VERIF, "seeded", name, "patch.diff")],
+        r = subprocess.run(["patch", "-p1", "-s", "-d", tmp, "-i", (lambda d: os.path.join(d, "patch_rebased.diff") if os.path.exists(os.path.join(d, "patch_rebased.diff")) else os.path.join(d, "patch.diff"))(os.path.join(VERIF, "seeded", name))],
                            capture_output=True, text=True)
         if r.returncode != 0:
             return name, "PATCH-FAILED", (r.stdout + r.stderr)[-200:]
